@@ -42,11 +42,12 @@ theorem C05_first_connect (cfg : Cfg) :
 property decodes, an Assigned Client Identifier has at most `CLIENT_ID_CAPACITY` bytes, Receive
 Maximum is not 0, Maximum QoS is at most 2); the resulting session is `Session.activated`, spelled
 out in `Proofs/SessionFacts.lean`; otherwise the error is `Peer.InvalidPacket` and the (possibly
-already reset) session is disconnected. -/
+already reset) session is disconnected (`Session.rejected`, which also raises the ghost flag `halfReset`
+when `sp = false`). -/
 theorem C05_connack_outcome (s : Session) (sp : Bool) (block : Bytes) (now : Nat) :
     ((s.activate sp block now).2 = .ok () ↔ connackBlockOk block) ∧
     (connackBlockOk block → s.activate sp block now = (s.activated sp block now, .ok ())) ∧
-    (¬ connackBlockOk block → s.activate sp block now = ((s.preActivate sp).handleDisconnect, .error .peerInvalid)) :=
+    (¬ connackBlockOk block → s.activate sp block now = (s.rejected sp, .error .peerInvalid)) :=
   ⟨activate_ok_iff s sp block now, (activate_eq s sp block now).1, (activate_eq s sp block now).2⟩
 
 /-- `connect()` reports what the CONNACK said: `Connected` for `sp = false`, `Reconnected` for `sp = true`. -/
